@@ -230,3 +230,40 @@ Theorem C11_example_inadmissible :
     (fst (run fixed init [fl 1 []]), [ErrNoFlavor; ErrNoComponent; Ok; ErrExists]).
 Proof. exact example_inadmissible. Qed.
 Print Assumptions C11_example_inadmissible.
+
+(* (13) The slices behind the tables (Slices.v).  Model.v reads Method.Combinations as a list and Go's append as list
+   append; Go slices share backing arrays.  inheritFlavor gives the flavor under construction a nil combination list
+   and appends the combinations of its components one by one: whatever arrays the existing lists share among each
+   other and however much spare capacity they have, the list it builds reads as the combinations appended, in order,
+   and every list that existed before reads as before.  (This is why defining a flavor cannot change the table of
+   a flavor defined earlier; the correspondence run also checks that directly around every defflavor.) *)
+From C11 Require Slices.
+Theorem C11_inherit_builds_own_list : forall (H : Slices.heap) (xs : list nat),
+  Slices.sread (fst (Slices.build H xs)) (snd (Slices.build H xs)) = xs /\
+  forall t, Slices.wf H t -> Slices.sread (fst (Slices.build H xs)) t = Slices.sread H t.
+Proof. exact Slices.build_fresh. Qed.
+Print Assumptions C11_inherit_builds_own_list.
+(* one append: the result reads as the old contents followed by the new element; any other list is unchanged unless
+   it lives in the array the append writes in place *)
+Theorem C11_append_read_frame : forall H s x, Slices.wf H s ->
+  Slices.sread (fst (Slices.sappend H s x)) (snd (Slices.sappend H s x)) = Slices.sread H s ++ [x] /\
+  forall t, Slices.wf H t -> (Slices.s_cap t = 0 \/ Slices.s_arr t <> Slices.s_arr s \/ Slices.s_cap s <= Slices.s_len s) ->
+            Slices.sread (fst (Slices.sappend H s x)) t = Slices.sread H t.
+Proof. exact Slices.sappend_read_frame. Qed.
+Print Assumptions C11_append_read_frame.
+(* refuted for the shortcut "the first component has the method: take its list as it is": base combines three
+   mixins (length 3 in an array of 4); x = (base xo) and y = (base yo) append to base's own slice: after y is defined
+   x's table holds y's combination *)
+Theorem C11_shared_first_component_refuted :
+  Slices.s_cap (snd Slices.ex_base) = 4 /\
+  Slices.sread (fst Slices.ex_x) (snd Slices.ex_x) = [1; 2; 3; 4] /\
+  Slices.sread (fst Slices.ex_y) (snd Slices.ex_y) = [1; 2; 3; 5] /\
+  Slices.sread (fst Slices.ex_y) (snd Slices.ex_x) = [1; 2; 3; 5] /\
+  Slices.s_arr (snd Slices.ex_x) = Slices.s_arr (snd Slices.ex_y).
+Proof. exact Slices.shared_first_component_refuted. Qed.
+Print Assumptions C11_shared_first_component_refuted.
+Theorem C11_own_lists_example :
+  Slices.sread (fst Slices.ok_y) (snd Slices.ok_x) = [1; 2; 3; 4] /\ Slices.sread (fst Slices.ok_y) (snd Slices.ok_y) = [1; 2; 3; 5] /\
+  Slices.sread (fst Slices.ok_y) (snd Slices.ex_base) = [1; 2; 3].
+Proof. exact Slices.own_lists_example. Qed.
+Print Assumptions C11_own_lists_example.
